@@ -234,6 +234,43 @@ theorem siteOf_spec {sg : Signer} {dir : Dir} {u : Urls} {d : Data} {a : Account
   | orderPoll => cases h; exact ⟨kidBuilder_binds _ _ _, by simp⟩
   | finalize => cases h; exact ⟨kidBuilder_binds _ _ _, by simp⟩
   | certDownload => cases h; exact ⟨kidBuilder_binds _ _ _, by simp⟩
+  | accountProbe =>
+    simp only [siteOf] at h
+    cases hep : a.ep with
+    | none => rw [hep] at h; cases h
+    | some ep =>
+      rw [hep] at h
+      cases h
+      exact ⟨kidBuilder_binds _ _ _, by simp⟩
+
+theorem oldKeyProbeBuilder_binds (sg : Signer) (p : Prepared) :
+    Binds false (oldKeyProbeBuilder sg p) := by
+  intro n url j h
+  obtain ⟨hh, _⟩ := encodeKid_some h
+  rw [hh]; exact ⟨rfl, rfl, rfl, rfl⟩
+
+/-- The query of the account signed by the recorded key: sent to the account URL of the endpoint
+record, which is also its `kid`; signed by the key `prepare` found; no inner object. -/
+theorem oldKeyProbeSite_spec {sg : Signer} {dk : List Char} {a : Account} {s : Site}
+    (h : oldKeyProbeSite sg dk a = some s) :
+    Binds false s.builder ∧ s.inners = [] ∧
+    ∃ p, prepare sg dk a = some p ∧ s.url = p.accountUrl ∧
+      (∃ ep, a.ep = some ep ∧ p.accountUrl = ep.accountUrl) ∧
+      ∀ n url j, s.builder n url = some j →
+        j.hdr.kid = some p.accountUrl ∧ j.payload = [] ∧ SignedBy sg p.oldKey.id p.oldKey.alg j := by
+  unfold oldKeyProbeSite at h
+  cases hp : prepare sg dk a with
+  | none => rw [hp] at h; cases h
+  | some p =>
+    rw [hp] at h
+    cases h
+    refine ⟨oldKeyProbeBuilder_binds _ _, rfl, p, rfl, rfl, ?_, ?_⟩
+    · obtain ⟨ep, _, hep, _, _, _, hau, _⟩ := prepare_some hp
+      exact ⟨ep, hep, hau⟩
+    · intro n url j hj
+      obtain ⟨hh, hpl, hs⟩ := encodeKid_some hj
+      rw [hh]
+      exact ⟨rfl, hpl, hs⟩
 
 theorem mem_callTxs {s : Site} {nonces : List (List Char)} {tx : Tx} (h : tx ∈ callTxs s nonces) :
     ∃ n ∈ nonces, s.builder n s.url = some tx.body ∧ tx.dest = s.url ∧ tx.inners = s.inners := by
